@@ -276,3 +276,26 @@ Proof.
     destruct (pet (fuel_for ts) 3 ts) as [[v [|x r]]| |] eqn:E; try discriminate.
     inversion Ep; subst. eapply (proj1 (ne_sound _)); eauto.
 Qed.
+(* every strict spelling is a lenient spelling *)
+Lemma strict_is_lenient i ts e : SpellsT i ts e -> wf_expr e = true -> SpellsL i ts e.
+Proof.
+  induction 1; intros Hw; simpl in Hw.
+  - apply andb_true_iff in Hw. destruct Hw as [Hi _]. apply spl_id. exact Hi.
+  - apply spl_sel. exact Hw.
+  - apply spl_par. auto.
+  - apply spl_not. auto.
+  - apply andb_true_iff in Hw. destruct Hw. apply spl_and; auto.
+  - apply andb_true_iff in Hw. destruct Hw. apply spl_or; auto.
+  - apply spl_up. auto.
+Qed.
+
+(* no text has two readings with different meanings *)
+Theorem unambiguous s e1 e2 :
+  wf_expr e1 = true -> wf_expr e2 = true -> Spells s e1 -> Spells s e2 ->
+  forall vid vsel, semv vid vsel e1 = semv vid vsel e2.
+Proof.
+  intros W1 W2 S1 S2 vid vsel.
+  destruct (parse_complete e1 s W1 S1) as [t1 [P1 D1]].
+  destruct (parse_complete e2 s W2 S2) as [t2 [P2 D2]].
+  rewrite P1 in P2. inversion P2; subst. rewrite <- D1, <- D2. reflexivity.
+Qed.
